@@ -13,6 +13,13 @@ _save:   logger.*(...) | X = <path> | X = json_utils.dumps(data, ...) | X = Y.en
          | os.remove/os.unlink(P) | if C: ... (no else; C over self._use_backup, os.path.exists(P), paths, and/or/not)
          | `if <statically false>: return` | with open(P, 'wb') as f: { f.write(<payload>.encode()) | f.flush()
          | os.fsync(f.fileno()) | logger | X = json_utils.dumps(...) }
+ops:     every method of JSONDriver that mentions self._save (insert, update, replace, remove must be among them) ->
+         Definition op_trees : list (string * oprog)   (C08/Oper.v).  The method may not contain await / async for / async
+         with / yield / lambda / nested def; `self._save` may only occur as the statement
+         `self._save(self._unindex(self._data))` (never awaited, never passed as a value, e.g. to an executor); statements
+         without save/return/raise -> PMem; return/raise -> PExit; if -> PIf; a loop that contains the save -> PLoop (the
+         decision procedure then rejects it: a second iteration saves twice); try/with around a save or an exit -> fail
+         closed.  No method other than _save/_load may call open()/os.rename/replace/remove/unlink/truncate/link or shutil.
 _load:   logger.*(...) | X = <path> | return {} | raise (bare, in a handler) | if C: ... else: ... (C additionally over
          os.stat(P).st_size ==/!=/> 0, os.path.getsize(P) ==/!=/> 0, a bytes variable) | try/except (FileNotFoundError,
          OSError, ValueError, Exception, bare; no else/finally) | with open(P, 'rb') as f: ... | X = f.read()
@@ -456,6 +463,102 @@ def _load_block(stmts, k, h, env, reraise=None):
 
 # ---------------------------------------------------------------------------------------------------------------------
 
+MUTATORS = ('insert', 'update', 'replace', 'remove')
+FILE_CALLS = {'os.rename', 'os.replace', 'os.remove', 'os.unlink', 'os.truncate', 'os.ftruncate', 'os.link', 'os.symlink',
+              'os.rmdir', 'os.removedirs', 'os.renames', 'os.open', 'os.write', 'open', 'io.open'}
+
+
+def _is_save_stmt(st):
+    """self._save(self._unindex(self._data))"""
+    if not (isinstance(st, ast.Expr) and isinstance(st.value, ast.Call)):
+        return False
+    c = st.value
+    if not (_is_self_attr(c.func, '_save') and len(c.args) == 1 and not c.keywords):
+        return False
+    a = c.args[0]
+    return (isinstance(a, ast.Call) and _is_self_attr(a.func, '_unindex') and len(a.args) == 1 and not a.keywords
+            and _is_self_attr(a.args[0], '_data'))
+
+
+def _save_mentions(node):
+    return [n for n in ast.walk(node)
+            if (isinstance(n, ast.Attribute) and n.attr == '_save') or (isinstance(n, ast.Name) and n.id == '_save')]
+
+
+def _has(node, types):
+    return any(isinstance(n, types) for n in ast.walk(node))
+
+
+def _op_block(stmts):
+    t = None
+    for st in stmts:
+        x = _op_stmt(st)
+        t = x if t is None else 'PSeq %s %s' % (_par(t), _par(x))
+    return t or 'PSkip'
+
+
+def _par(t):
+    return t if ' ' not in t else '(%s)' % t
+
+
+def _op_stmt(st):
+    if _is_save_stmt(st):
+        return 'PSave'
+    if isinstance(st, (ast.Return, ast.Raise)):
+        return 'PExit'
+    if isinstance(st, (ast.Continue, ast.Break)):
+        return 'PSkip'   # over-approximation: the rest of the body is kept on the path
+    saves = bool(_save_mentions(st))
+    exits = _has(st, (ast.Return, ast.Raise))
+    if not saves and not exits:
+        return 'PMem'
+    if isinstance(st, ast.If):
+        return 'PIf %s %s' % (_par(_op_block(st.body)), _par(_op_block(st.orelse)))
+    if isinstance(st, (ast.For, ast.While)):
+        if st.orelse:
+            _bad('loop with else around a save or an exit', st)
+        if saves:
+            return 'PLoop %s' % _par(_op_block(st.body))
+        return 'PSeq PMem (PIf PExit PSkip)'   # may leave the operation from inside the loop, or not
+    _bad('compound statement around a save or an exit', st)
+
+
+def read_operations(cls):
+    """-> list of (method name, oprog text)"""
+    out = []
+    allowed = set()
+    for fn in cls.body:
+        if not isinstance(fn, (ast.FunctionDef, ast.AsyncFunctionDef)):
+            continue
+        if fn.name not in ('_save', '_load'):
+            for n in ast.walk(fn):
+                if isinstance(n, ast.Call):
+                    d = _dotted(n.func) or ''
+                    if d in FILE_CALLS or d.startswith('shutil.'):
+                        _bad('file operation outside _save/_load (in %s)' % fn.name, n)
+        if fn.name == '_save' or not _save_mentions(fn):
+            continue
+        if _has(fn, (ast.Await, ast.AsyncFor, ast.AsyncWith, ast.Yield, ast.YieldFrom, ast.Lambda)) or any(
+                isinstance(n, (ast.FunctionDef, ast.AsyncFunctionDef, ast.ClassDef)) and n is not fn for n in ast.walk(fn)):
+            raise Untranslatable('%s saves and contains await/async/yield/lambda/nested definitions: the in-memory change and '
+                                 'the save are not one synchronous step' % fn.name)
+        for st in ast.walk(fn):
+            if _is_save_stmt(st):
+                allowed.add(id(st.value.func))
+        out.append((fn.name, _op_block(fn.body)))
+    for n in _save_mentions(cls):
+        if id(n) not in allowed:
+            _bad('self._save used other than as the statement self._save(self._unindex(self._data))', n)
+    names = [n for n, _ in out]
+    for m in MUTATORS:
+        fn = [f for f in cls.body if isinstance(f, (ast.FunctionDef, ast.AsyncFunctionDef)) and f.name == m]
+        if len(fn) != 1 or not isinstance(fn[0], ast.AsyncFunctionDef):
+            raise Untranslatable('JSONDriver.%s not found' % m)
+        if m not in names or 'PSave' not in dict(out)[m]:
+            raise Untranslatable('JSONDriver.%s does not call self._save synchronously' % m)
+    return out
+
+
 def _method(cls, name):
     fn = [n for n in cls.body if isinstance(n, ast.FunctionDef) and n.name == name]
     if len(fn) != 1:
@@ -488,23 +591,26 @@ def read_programs(src_path=None):
         raise Untranslatable('_load signature')
     env = {'paths': {}, 'bytes': {}, 'handles': {}, 'backup_method_ok': backup_ok}
     load_tree = _load_block(load.body, 'LRaise', {'FNF': 'LRaise', 'DEC': 'LRaise'}, env)
-    return save_ops, load_tree
+    return save_ops, load_tree, read_operations(cls)
 
 
-def gen_text(save_ops, load_tree, note=''):
+def gen_text(save_ops, load_tree, op_trees=(), note=''):
     return (
         '(* generated by harness/translate/saveprog.py from %s - do not edit *)\n%s'
-        'From QT Require Import C08.Model.\n'
+        'From QT Require Import C08.Oper.\n'
         'Definition save_prog : list op := [\n  %s].\n'
-        'Definition load_prog : lprog :=\n  %s.\n' % (SRC, note, ';\n  '.join(save_ops), load_tree)
+        'Definition load_prog : lprog :=\n  %s.\n'
+        'Definition op_trees : list (string * oprog) := [\n  %s].\n' % (
+            SRC, note, ';\n  '.join(save_ops), load_tree,
+            ';\n  '.join('("%s"%%string, %s)' % (n, t) for n, t in op_trees))
     )
 
 
 def translate(ctx=None):
     try:
-        save_ops, load_tree = read_programs()
+        save_ops, load_tree, op_trees = read_programs()
     except (Untranslatable, SyntaxError, OSError) as e:
-        coq.write_gen(GEN, gen_text([], 'LRaise', '(* UNTRANSLATABLE: %s *)\n' % str(e).replace('*)', '* )')))
+        coq.write_gen(GEN, gen_text([], 'LRaise', [], '(* UNTRANSLATABLE: %s *)\n' % str(e).replace('*)', '* )').replace('"', "'")))
         return {'status': 'untranslatable', 'detail': '%s: %s' % (type(e).__name__, e)}
-    coq.write_gen(GEN, gen_text(save_ops, load_tree))
-    return {'status': 'ok', 'detail': {'save_prog': save_ops, 'load_prog': load_tree}}
+    coq.write_gen(GEN, gen_text(save_ops, load_tree, op_trees))
+    return {'status': 'ok', 'detail': {'save_prog': save_ops, 'load_prog': load_tree, 'op_trees': dict(op_trees)}}
